@@ -93,7 +93,7 @@ def rule_guard(c: Ctx) -> RuleResult:
         rd = Reaching(cfg)
         caps = []
         for n in cfg.nodes:
-            if n.kind == "test" and isinstance(n.ast, ast.Compare) and len(n.ast.ops) == 1 and U(n.ast.left) == f"{stn}.level":
+            if n.kind == "test" and isinstance(n.ast, ast.Compare) and len(n.ast.ops) == 1 and f"{stn}.level" in U(n.ast.left):
                 rhs = n.ast.comparators[0]
                 isopt = option_read_key(rhs) == "maxNesting"
                 if isinstance(rhs, ast.Name):
